@@ -2,11 +2,9 @@
 // Roots are uninterpreted functions of the CONTENTS (A-SMT: history independence) and injective (A-SMT/A-HASH: collision freedom).
 pub uninterp spec fn spec_root_smt<K, V>(m: Map<K, V>) -> HashVal;
 pub uninterp spec fn spec_root_coins(v: CoinsView) -> HashVal;
-pub uninterp spec fn spec_root_txs(m: Map<TxHash, Transaction>, tip908: bool) -> HashVal;
 pub uninterp spec fn spec_root_stakes(m: Map<TxHash, StakeDoc>) -> HashVal;
 pub broadcast axiom fn axiom_root_smt_inj<K, V>(a: Map<K, V>, b: Map<K, V>) requires #[trigger] spec_root_smt(a) == #[trigger] spec_root_smt(b) ensures a == b;
 pub broadcast axiom fn axiom_root_coins_inj(a: CoinsView, b: CoinsView) requires #[trigger] spec_root_coins(a) == #[trigger] spec_root_coins(b) ensures a.coins == b.coins, a.counts == b.counts;
-pub broadcast axiom fn axiom_root_txs_inj(a: Map<TxHash, Transaction>, b: Map<TxHash, Transaction>, t: bool) requires #[trigger] spec_root_txs(a, t) == #[trigger] spec_root_txs(b, t) ensures a.dom() == b.dom();
 pub broadcast axiom fn axiom_root_stakes_inj(a: Map<TxHash, StakeDoc>, b: Map<TxHash, StakeDoc>) requires #[trigger] spec_root_stakes(a) == #[trigger] spec_root_stakes(b) ensures a == b;
 pub open spec fn spec_tip908<C: ContentAddrStore>(s: UnsealedState<C>) -> bool { spec_tip(s.network, s.height, u64::MAX) || s.network == NetID::Custom08 }
 pub open spec fn spec_header<C: ContentAddrStore>(s: UnsealedState<C>) -> Header {
